@@ -228,3 +228,6 @@ func NewKHR() keyholder.Registry { return keyholder.VerifNewRegistry() }
 
 // NopLogger returns a disabled logger.
 func NopLogger() zerolog.Logger { return zerolog.Nop() }
+
+// NopObserver returns a certificate observer doing nothing.
+func NopObserver() certificate.Observer { return nopObserver{} }
